@@ -199,7 +199,10 @@ def aggregate(results):
     agg["distinct_nontrivial"] = len(digests)
     agg["nontrivial_runs"] = nontriv
     agg["distinct_interleavings"] = len(coarse)
-    agg["fault_free_runs"] = sum(1 for s in results if "harness_error" not in s and not s["faults"])
+    # F6 (records handed back in another order) fires in every round of every audit; a run counts as
+    # fault-free when nothing else fired
+    agg["fault_free_runs"] = sum(1 for s in results if "harness_error" not in s
+                                 and not [k for k in s["faults"] if not k.startswith("F6")])
     return agg, viol, harness
 
 
